@@ -328,3 +328,50 @@ Fixpoint consolidateInPlace (st : rstore) (pages : list rpage) : rstore * list r
       let (st', ds) := consolidateInPlace (updR st (fst p) d) r in
       (st', d :: ds)
   end.
+
+(* ------------------------------------------------------------------ *)
+(* duplicate form XObjects (optimize.go: optimizeXObjectResource -> optimizeForm ->
+   optimizeXObjectForm).  For every form, in processing order:
+     1. ctx.DeleteDictEntry(sd.Dict, "PieceInfo")            (normalise FIRST)
+     2. compare with every cached form (EqualObjects(sd, cached)); equal: the reference is
+        replaced by the cached form, else the (normalised) form is cached.
+   dedupAcc returns the cache = the surviving forms in order. *)
+Section Dedup.
+  Variable A : Type.
+  Variable norm : A -> A.
+  Variable eqf : A -> A -> bool.          (* eqf new cached *)
+
+  Fixpoint dedupAcc (cache : list A) (l : list A) : list A :=
+    match l with
+    | [] => cache
+    | x :: r =>
+        let y := norm x in
+        if existsb (eqf y) cache then dedupAcc cache r else dedupAcc (cache ++ [y]) r
+    end.
+  Definition dedup (l : list A) : list A := dedupAcc [] l.
+
+  (* the other order: compare the form as it is, strip it afterwards *)
+  Fixpoint dedupLateAcc (cache : list A) (l : list A) : list A :=
+    match l with
+    | [] => cache
+    | x :: r =>
+        if existsb (eqf x) cache then dedupLateAcc cache r else dedupLateAcc (cache ++ [norm x]) r
+    end.
+  Definition dedupLate (l : list A) : list A := dedupLateAcc [] l.
+End Dedup.
+
+Definition kPieceInfo : bytes := [80;105;101;99;101;73;110;102;111]%N.
+(* Dict.Delete(key) *)
+Definition delKey (k : bytes) (d : dict) : dict := filter (fun kv => negb (beqb (fst kv) k)) d.
+Definition normForm (o : obj) : obj :=
+  match o with OStream d r => OStream (delKey kPieceInfo d) r | _ => o end.
+Definition eqForm (limit : Z) (g : graph) (x c : obj) : bool :=
+  match EqualObjects (enoughFuel limit) limit g x c [] with CT => true | _ => false end.
+
+(* number of distinct forms after one pass and after a second pass over its result *)
+Definition formDedupCounts (limit : Z) (g : graph) (forms : list Z) : nat * nat :=
+  let s1 := dedup obj normForm (eqForm limit g) (map g forms) in
+  (length s1, length (dedup obj normForm (eqForm limit g) s1)).
+Definition formDedupLateCounts (limit : Z) (g : graph) (forms : list Z) : nat * nat :=
+  let s1 := dedupLate obj normForm (eqForm limit g) (map g forms) in
+  (length s1, length (dedupLate obj normForm (eqForm limit g) s1)).
